@@ -186,10 +186,12 @@ theorem cutStep_def (c : Cut) (b : UInt8) :
 
 theorem strQ_liftQ (q : Q) : strQ (liftQ q) = strQ q := by cases q <;> rfl
 
-/-- inside a value one level deep nothing is cut: the byte joins the current piece -/
-theorem cutStep_inner (fr : Frame) (s s' : S) (b : UInt8) (cur : Bytes) (out : List Bytes)
-    (h : step s b = some s') (hd : s.st.length + 2 ≤ maxNestingDepth) :
-    cutStep ⟨lift fr s, cur, true, out⟩ b = some ⟨lift fr s', b :: cur, true, out⟩ := by
+/-- inside a value one level deep nothing is cut: the byte joins the current piece (a blank before
+the piece has started is skipped instead, which is excluded here) -/
+theorem cutStep_inner' (fr : Frame) (s s' : S) (b : UInt8) (cur : Bytes) (out : List Bytes) (started : Bool)
+    (h : step s b = some s') (hd : s.st.length + 2 ≤ maxNestingDepth)
+    (hs : started = true ∨ isSpace b = false) :
+    cutStep ⟨lift fr s, cur, started, out⟩ b = some ⟨lift fr s', b :: cur, true, out⟩ := by
   rw [cutStep_def]
   simp only [step_lift fr s s' b hd h]
   have hlen : (lift fr s).st.length = s.st.length + 1 := by simp [lift]
@@ -204,15 +206,20 @@ theorem cutStep_inner (fr : Frame) (s s' : S) (b : UInt8) (cur : Bytes) (out : L
       cases hst : s.st with
       | cons x r => simp
       | nil =>
-        have hs : s = ⟨s.q, []⟩ := by cases s; simp_all
+        have hse : s = ⟨s.q, []⟩ := by cases s; simp_all
         have := top_no_delim s.q hq
         by_cases h44 : b = 44
-        · subst h44; rw [hs, this.1] at h; simp at h
+        · subst h44; rw [hse, this.1] at h; simp at h
         · by_cases h58 : b = 58
-          · subst h58; rw [hs, this.2] at h; simp at h
+          · subst h58; rw [hse, this.2] at h; simp at h
           · simp [h44, h58]
   simp only [hdelim]
-  simp [hlen, hlen']
+  rcases hs with hs | hs <;> simp [hlen, hlen', hs]
+
+theorem cutStep_inner (fr : Frame) (s s' : S) (b : UInt8) (cur : Bytes) (out : List Bytes)
+    (h : step s b = some s') (hd : s.st.length + 2 ≤ maxNestingDepth) :
+    cutStep ⟨lift fr s, cur, true, out⟩ b = some ⟨lift fr s', b :: cur, true, out⟩ :=
+  cutStep_inner' fr s s' b cur out true h hd (Or.inl rfl)
 
 theorem cutRun_inner (fr : Frame) (s s' : S) (v cur : Bytes) (out : List Bytes)
     (h : run s v = some s') (hd : depthOK s v = true) :
@@ -229,5 +236,374 @@ theorem cutRun_inner (fr : Frame) (s s' : S) (v cur : Bytes) (out : List Bytes)
       simp only [cutRun, cutStep_inner fr s t b cur out hs hd.1, Option.bind_some]
       rw [ih t (b :: cur) h hd.2]
       simp
+
+/-- states in which a value one level deep is complete, so that the next `,` `:` `}` `]` acts as the
+end of that value -/
+def endQ (q : Q) : Bool :=
+  match q with
+  | .endValue | .num1 | .num0 | .dot0 | .e0 => true
+  | _ => false
+
+theorem endQ_step (q : Q) (fr : Frame) (c : UInt8) (hq : endQ q = true)
+    (hc : c = 44 ∨ c = 58 ∨ c = 125 ∨ c = 93) : step ⟨q, [fr]⟩ c = endValue [fr] c := by
+  rcases hc with h | h | h | h <;> subst h <;> cases q <;> first | (exact absurd hq (by decide)) | rfl
+
+theorem endQ_not_str (q : Q) (hq : endQ q = true) : strQ q = false := by
+  cases q <;> first | (exact absurd hq (by decide)) | rfl
+
+/-- a stand-alone run that is complete (`atEnd`) corresponds, one level deep, to an end state on
+the bare frame -/
+theorem atEnd_lift (fr : Frame) (s : S) (h : atEnd s = true) (hinv : s.q = .endTop → s.st = []) :
+    (lift fr s).st = [fr] ∧ endQ (lift fr s).q = true := by
+  obtain ⟨q, st⟩ := s
+  have key : st = [] ∧ endQ (liftQ q) = true := by
+    have h1 : isHex 32 = false := by decide
+    have h2 : isDigit 32 = false := by decide
+    have h3 : isSpace 32 = true := by decide
+    cases q <;> simp only [atEnd, step] at h <;>
+      first
+        | (exact ⟨hinv rfl, by decide⟩)
+        | (cases st <;> simp_all [endValue, lit, beginValue, beginString, push, endQ, liftQ])
+  exact ⟨by simp [lift, key.1], key.2⟩
+
+def TopInv (s : S) : Prop := s.q = .endTop → s.st = []
+
+theorem pop_inv (st : List Frame) : TopInv (pop st) := by
+  unfold TopInv
+  match st with
+  | [] => intro _; rfl
+  | [_] => intro _; rfl
+  | _ :: _ :: _ => intro h; simp [pop] at h
+
+theorem endValue_inv (st : List Frame) (c : UInt8) (s' : S) (h : endValue st c = some s') : TopInv s' := by
+  unfold endValue at h
+  repeat' split at h
+  all_goals first
+    | (injection h with h; subst h; first | exact pop_inv _ | (intro hq; first | rfl | (simp at hq)))
+    | (simp at h; done)
+
+theorem step_inv (s s' : S) (b : UInt8) (h : step s b = some s') (hi : TopInv s) : TopInv s' := by
+  obtain ⟨q, st⟩ := s
+  cases q
+  all_goals
+    simp only [step] at h
+    repeat' split at h
+    all_goals first
+      | (injection h with h; subst h; first | exact hi | (intro hq; simp at hq))
+      | exact endValue_inv _ _ _ h
+      | (unfold beginValue at h; repeat' split at h
+         all_goals first
+           | (injection h with h; subst h; intro hq; simp at hq)
+           | (have := push_some _ _ _ _ h; subst this; intro hq; simp at hq)
+           | (simp at h; done))
+      | (unfold beginString at h; repeat' split at h
+         all_goals first
+           | (injection h with h; subst h; intro hq; simp at hq)
+           | (simp at h; done))
+      | (unfold lit at h; split at h
+         · injection h with h; subst h; intro hq; simp at hq
+         · simp at h)
+      | (simp at h; done)
+
+theorem run_inv (s s' : S) (v : Bytes) (h : run s v = some s') (hi : TopInv s) : TopInv s' := by
+  induction v generalizing s with
+  | nil => simp [run] at h; subst h; exact hi
+  | cons b r ih =>
+    simp only [run] at h
+    cases hs : step s b with
+    | none => simp [hs] at h
+    | some t => simp only [hs, Option.bind_some] at h; exact ih t h (step_inv s t b hs hi)
+
+theorem cutRun_append (c : Cut) (a b : Bytes) : cutRun c (a ++ b) = (cutRun c a).bind (cutRun · b) := by
+  induction a generalizing c with
+  | nil => simp [cutRun]
+  | cons x xs ih =>
+    simp only [List.cons_append, cutRun]
+    cases h : cutStep c x with
+    | none => simp
+    | some c' => simp [ih]
+
+/-- `v` is cut as ONE piece when it stands as a value directly inside an object or array: scanned
+from the value position under any frame, no delimiter is seen inside it, the whole text joins the
+current piece, and the scanner ends ready for the container's next delimiter -/
+def CutsAsValue (v : Bytes) : Prop :=
+  ∀ (fr : Frame) (out : List Bytes), ∃ s1 : S,
+    cutRun ⟨⟨.beginValue, [fr]⟩, [], false, out⟩ v = some ⟨s1, v.reverse, true, out⟩ ∧
+    s1.st = [fr] ∧ endQ s1.q = true
+
+/-- an executable description of "one trimmed JSON value that nests less deep than the scanner's
+limit minus one" -/
+structure Tok (v : Bytes) : Prop where
+  first : ∃ b r, v = b :: r ∧ isSpace b = false
+  runs : ∃ s1, run start v = some s1 ∧ atEnd s1 = true
+  depth : depthOK start v = true
+
+theorem tok_cuts (v : Bytes) (h : Tok v) : CutsAsValue v := by
+  intro fr out
+  obtain ⟨b, r, hv, hb⟩ := h.first
+  obtain ⟨s1, hrun, hend⟩ := h.runs
+  subst hv
+  simp only [run] at hrun
+  cases hs : step start b with
+  | none => simp [hs] at hrun
+  | some t =>
+    simp only [hs, Option.bind_some] at hrun
+    have hd := h.depth
+    simp only [depthOK, hs, Bool.and_eq_true, decide_eq_true_eq] at hd
+    have h1 := cutStep_inner' fr start t b [] out false hs hd.1 (Or.inr hb)
+    have h2 := cutRun_inner fr t s1 r [b] out hrun hd.2
+    have hinv : TopInv s1 := run_inv t s1 r hrun (step_inv start t b hs (by intro hq; rfl))
+    obtain ⟨e1, e2⟩ := atEnd_lift fr s1 hend hinv
+    refine ⟨lift fr s1, ?_, e1, e2⟩
+    have hl : lift fr start = ⟨.beginValue, [fr]⟩ := rfl
+    rw [hl] at h1
+    simp only [cutRun, h1, Option.bind_some, h2]
+    simp
+
+/-- a word that the cutter, inside a string literal one level deep, swallows whole and that leaves
+the scanner inside the string -/
+def StrWord (w : Bytes) : Prop :=
+  ∀ (fr : Frame) (cur : Bytes) (out : List Bytes),
+    cutRun ⟨⟨.inString, [fr]⟩, cur, true, out⟩ w = some ⟨⟨.inString, [fr]⟩, w.reverse ++ cur, true, out⟩
+
+theorem strWord_nil : StrWord [] := by intro fr cur out; simp [cutRun]
+
+theorem strWord_append {a b : Bytes} (ha : StrWord a) (hb : StrWord b) : StrWord (a ++ b) := by
+  intro fr cur out
+  rw [cutRun_append, ha fr cur out]
+  simp only [Option.bind_some]
+  rw [hb fr (a.reverse ++ cur) out]
+  simp
+
+theorem cutStep_str (q q' : Q) (fr : Frame) (b : UInt8) (cur : Bytes) (out : List Bytes)
+    (hq : strQ q = true) (h : step ⟨q, [fr]⟩ b = some ⟨q', [fr]⟩) :
+    cutStep ⟨⟨q, [fr]⟩, cur, true, out⟩ b = some ⟨⟨q', [fr]⟩, b :: cur, true, out⟩ := by
+  rw [cutStep_def]
+  simp [h, hq]
+
+theorem isHex_hexDigitByte (n : Nat) (h : n < 16) : isHex (hexDigitByte n) = true := by
+  revert n; decide
+
+theorem strWord_plain (c : UInt8) (h1 : c ≠ 34) (h2 : c ≠ 92) (h3 : ¬ c < 32) : StrWord [c] := by
+  intro fr cur out
+  have hs : step ⟨.inString, [fr]⟩ c = some ⟨.inString, [fr]⟩ := by
+    simp [step, h1, h2, h3]
+  simp [cutRun, cutStep_str .inString .inString fr c cur out rfl hs]
+
+theorem strWord_esc2 (c : UInt8) (hc : c = 98 ∨ c = 102 ∨ c = 110 ∨ c = 114 ∨ c = 116 ∨ c = 92 ∨ c = 47 ∨ c = 34) :
+    StrWord [92, c] := by
+  intro fr cur out
+  have s1 : step ⟨.inString, [fr]⟩ 92 = some ⟨.inStringEsc, [fr]⟩ := rfl
+  have s2 : step ⟨.inStringEsc, [fr]⟩ c = some ⟨.inString, [fr]⟩ := by
+    rcases hc with h | h | h | h | h | h | h | h <;> subst h <;> rfl
+  simp [cutRun, cutStep_str .inString .inStringEsc fr 92 cur out rfl s1,
+    cutStep_str .inStringEsc .inString fr c (92 :: cur) out rfl s2]
+
+theorem strWord_u (a b c d : UInt8) (ha : isHex a = true) (hb : isHex b = true) (hc : isHex c = true) (hd : isHex d = true) :
+    StrWord [92, 117, a, b, c, d] := by
+  intro fr cur out
+  have s1 : step ⟨.inString, [fr]⟩ 92 = some ⟨.inStringEsc, [fr]⟩ := rfl
+  have s2 : step ⟨.inStringEsc, [fr]⟩ 117 = some ⟨.escU, [fr]⟩ := rfl
+  have s3 : step ⟨.escU, [fr]⟩ a = some ⟨.escU1, [fr]⟩ := by simp [step, ha]
+  have s4 : step ⟨.escU1, [fr]⟩ b = some ⟨.escU12, [fr]⟩ := by simp [step, hb]
+  have s5 : step ⟨.escU12, [fr]⟩ c = some ⟨.escU123, [fr]⟩ := by simp [step, hc]
+  have s6 : step ⟨.escU123, [fr]⟩ d = some ⟨.inString, [fr]⟩ := by simp [step, hd]
+  simp [cutRun, cutStep_str _ _ fr 92 cur out rfl s1, cutStep_str _ _ fr 117 _ out rfl s2,
+    cutStep_str _ _ fr a _ out rfl s3, cutStep_str _ _ fr b _ out rfl s4,
+    cutStep_str _ _ fr c _ out rfl s5, cutStep_str _ _ fr d _ out rfl s6]
+
+theorem strWord_escByte (c : UInt8) : StrWord (escByte c) := by
+  unfold escByte
+  split
+  · exact strWord_esc2 34 (by simp)
+  split
+  · exact strWord_esc2 92 (by simp)
+  split
+  · exact strWord_esc2 98 (by simp)
+  split
+  · exact strWord_esc2 102 (by simp)
+  split
+  · exact strWord_esc2 110 (by simp)
+  split
+  · exact strWord_esc2 114 (by simp)
+  split
+  · exact strWord_esc2 116 (by simp)
+  split
+  · have hlt : c.toNat < 256 := c.toNat_lt
+    exact strWord_u 48 48 _ _ (by decide) (by decide)
+      (isHex_hexDigitByte _ (by omega)) (isHex_hexDigitByte _ (by omega))
+  · rename_i h34 h92 _ _ _ _ _ hlast
+    simp only [Bool.or_eq_true, decide_eq_true_eq, beq_iff_eq, not_or] at hlast
+    exact strWord_plain c (by simpa using h34) (by simpa using h92) hlast.1.1.1
+
+theorem strWord_quoteBody (x : Bytes) : StrWord (quoteBody x) := by
+  induction x using quoteBody.induct with
+  | case1 r ih =>
+    rw [quoteBody]
+    exact strWord_append (strWord_u 50 48 50 56 (by decide) (by decide) (by decide) (by decide)) ih
+  | case2 r ih =>
+    rw [quoteBody]
+    exact strWord_append (strWord_u 50 48 50 57 (by decide) (by decide) (by decide) (by decide)) ih
+  | case3 c r h1 h2 ih =>
+    rw [quoteBody]
+    · exact strWord_append (strWord_escByte c) ih
+    · exact h1
+    · exact h2
+  | case4 => rw [quoteBody]; exact strWord_nil
+
+/-- a string literal produced by `quote` is cut as one piece, from a value or a key position -/
+theorem quote_cuts_from (x : Bytes) (q0 : Q) (hq0 : q0 = .beginValue ∨ q0 = .beginString ∨ q0 = .beginStringOrEmpty)
+    (fr : Frame) (out : List Bytes) :
+    cutRun ⟨⟨q0, [fr]⟩, [], false, out⟩ (quote x) = some ⟨⟨.endValue, [fr]⟩, (quote x).reverse, true, out⟩ := by
+  unfold quote
+  have h0 : cutStep ⟨⟨q0, [fr]⟩, [], false, out⟩ 34 = some ⟨⟨.inString, [fr]⟩, [34], true, out⟩ := by
+    rcases hq0 with h | h | h <;> subst h <;> (rw [cutStep_def]; rfl)
+  have hlast : ∀ cur, cutStep ⟨⟨.inString, [fr]⟩, cur, true, out⟩ 34 = some ⟨⟨.endValue, [fr]⟩, 34 :: cur, true, out⟩ :=
+    fun cur => cutStep_str .inString .endValue fr 34 cur out rfl rfl
+  simp only [cutRun, h0, Option.bind_some, cutRun_append, strWord_quoteBody x fr [34] out, hlast]
+  simp
+
+theorem quote_cuts (x : Bytes) : CutsAsValue (quote x) := by
+  intro fr out
+  exact ⟨⟨.endValue, [fr]⟩, quote_cuts_from x .beginValue (Or.inl rfl) fr out, rfl, rfl⟩
+
+/-- the piece is finished by the container's next delimiter -/
+theorem cutStep_colon (q : Q) (cur : Bytes) (out : List Bytes) (hq : endQ q = true) :
+    cutStep ⟨⟨q, [.objKey]⟩, cur, true, out⟩ 58 =
+      some ⟨⟨.beginValue, [.objVal]⟩, [], false, (cur.dropWhile isSpace).reverse :: out⟩ := by
+  rw [cutStep_def]
+  simp only [endQ_step q .objKey 58 hq (by simp)]
+  simp [endValue, isSpace, endQ_not_str q hq]
+
+theorem cutStep_comma (q : Q) (cur : Bytes) (out : List Bytes) (hq : endQ q = true) :
+    cutStep ⟨⟨q, [.objVal]⟩, cur, true, out⟩ 44 =
+      some ⟨⟨.beginString, [.objKey]⟩, [], false, (cur.dropWhile isSpace).reverse :: out⟩ := by
+  rw [cutStep_def]
+  simp only [endQ_step q .objVal 44 hq (by simp)]
+  simp [endValue, isSpace, endQ_not_str q hq]
+
+theorem cutStep_close (q : Q) (cur : Bytes) (out : List Bytes) (hq : endQ q = true) :
+    cutStep ⟨⟨q, [.objVal]⟩, cur, true, out⟩ 125 =
+      some ⟨⟨.endTop, []⟩, [], false, (cur.dropWhile isSpace).reverse :: out⟩ := by
+  rw [cutStep_def]
+  simp only [endQ_step q .objVal 125 hq (by simp)]
+  simp [endValue, isSpace, pop]
+
+/-- the text between the braces of an object with these (key text, value text) members -/
+def objBody : List (Bytes × Bytes) → Bytes
+  | [] => []
+  | [(k, v)] => k ++ 58 :: v
+  | (k, v) :: r => k ++ 58 :: v ++ 44 :: objBody r
+
+def objText (kvs : List (Bytes × Bytes)) : Bytes := 123 :: objBody kvs ++ [125]
+
+def flatPairs : List (Bytes × Bytes) → List Bytes
+  | [] => []
+  | (k, v) :: r => k :: v :: flatPairs r
+
+/-- what the encoder guarantees of a member: the key is a quoted string, the value is cut as one
+piece and carries no trailing blank -/
+structure GoodMember (kv : Bytes × Bytes) : Prop where
+  key : ∃ x, kv.1 = quote x
+  val : CutsAsValue kv.2
+  trimR : kv.2.reverse.dropWhile isSpace = kv.2.reverse
+
+theorem quote_trimR (x : Bytes) : (quote x).reverse.dropWhile isSpace = (quote x).reverse := by
+  unfold quote
+  simp [List.dropWhile, isSpace]
+
+theorem cut_member (k v : Bytes) (h : GoodMember (k, v)) (q0 : Q)
+    (hq0 : q0 = .beginValue ∨ q0 = .beginString ∨ q0 = .beginStringOrEmpty) (out : List Bytes) :
+    ∃ s1 : S, cutRun ⟨⟨q0, [.objKey]⟩, [], false, out⟩ (k ++ 58 :: v) = some ⟨s1, v.reverse, true, k :: out⟩ ∧
+      s1.st = [.objVal] ∧ endQ s1.q = true := by
+  obtain ⟨x, hx⟩ := h.key
+  simp only at hx
+  subst hx
+  obtain ⟨s1, hc, hst, hq⟩ := h.val .objVal (quote x :: out)
+  refine ⟨s1, ?_, hst, hq⟩
+  rw [cutRun_append, quote_cuts_from x q0 hq0 .objKey out]
+  simp only [Option.bind_some, cutRun, cutStep_colon .endValue _ out rfl, quote_trimR, List.reverse_reverse]
+  exact hc
+
+theorem cut_objBody (kvs : List (Bytes × Bytes)) (hne : kvs ≠ []) (h : ∀ kv ∈ kvs, GoodMember kv) :
+    ∀ (q0 : Q), (q0 = .beginValue ∨ q0 = .beginString ∨ q0 = .beginStringOrEmpty) → ∀ (out : List Bytes),
+      cutRun ⟨⟨q0, [.objKey]⟩, [], false, out⟩ (objBody kvs ++ [125]) =
+        some ⟨⟨.endTop, []⟩, [], false, (flatPairs kvs).reverse ++ out⟩ := by
+  induction kvs with
+  | nil => exact absurd rfl hne
+  | cons kv rest ih =>
+    intro q0 hq0 out
+    obtain ⟨k, v⟩ := kv
+    have hm : GoodMember (k, v) := h (k, v) (by simp)
+    obtain ⟨s1, hc, hst, hq⟩ := cut_member k v hm q0 hq0 out
+    have hs1 : s1 = ⟨s1.q, [.objVal]⟩ := by cases s1; simp_all
+    cases rest with
+    | nil =>
+      simp only [objBody, flatPairs]
+      rw [cutRun_append, hc]
+      simp only [Option.bind_some, cutRun]
+      rw [hs1, cutStep_close s1.q _ _ hq, hm.trimR]
+      simp
+    | cons kv2 rest2 =>
+      have hrest : ∀ kv ∈ kv2 :: rest2, GoodMember kv := fun kv hkv => h kv (by simp [hkv])
+      have ih' := ih (by simp) hrest .beginString (Or.inr (Or.inl rfl)) (v :: k :: out)
+      simp only [objBody, flatPairs]
+      have e : k ++ 58 :: v ++ 44 :: objBody (kv2 :: rest2) ++ [125] =
+          (k ++ 58 :: v) ++ (44 :: (objBody (kv2 :: rest2) ++ [125])) := by simp
+      rw [e, cutRun_append, hc]
+      simp only [Option.bind_some, cutRun]
+      rw [hs1, cutStep_comma s1.q _ _ hq, hm.trimR]
+      simp only [Option.bind_some, List.reverse_reverse]
+      rw [ih']
+      simp [flatPairs]
+
+theorem cutStep_state' (c : Cut) (b : UInt8) : (cutStep c b).map (·.s) = step c.s b := by
+  unfold cutStep
+  cases h : step c.s b with
+  | none => rfl
+  | some s' =>
+    simp only
+    repeat' split
+    all_goals rfl
+
+theorem cutRun_state (c c' : Cut) (bs : Bytes) (h : cutRun c bs = some c') : run c.s bs = some c'.s := by
+  induction bs generalizing c with
+  | nil => simp [cutRun] at h; subst h; rfl
+  | cons b r ih =>
+    simp only [cutRun] at h
+    have hs := cutStep_state' c b
+    cases hc : cutStep c b with
+    | none => simp [hc] at h
+    | some c1 =>
+      rw [hc] at hs h
+      simp only [Option.map_some, Option.bind_some] at hs h
+      simp only [run, ← hs, Option.bind_some]
+      exact ih c1 h
+
+theorem pairUp_flatPairs (kvs : List (Bytes × Bytes)) : pairUp (flatPairs kvs) = some kvs := by
+  induction kvs with
+  | nil => rfl
+  | cons kv r ih => obtain ⟨k, v⟩ := kv; simp [flatPairs, pairUp, ih]
+
+/-- **the member splitter recovers exactly the members the encoder wrote** -/
+theorem members_objText (kvs : List (Bytes × Bytes)) (hne : kvs ≠ []) (h : ∀ kv ∈ kvs, GoodMember kv) :
+    members (objText kvs) = some kvs := by
+  have h0 : cutStep ⟨start, [], false, []⟩ 123 = some ⟨⟨.beginStringOrEmpty, [.objKey]⟩, [], false, []⟩ := by
+    rw [cutStep_def]; rfl
+  have hcut : cutRun ⟨start, [], false, []⟩ (objText kvs) = some ⟨⟨.endTop, []⟩, [], false, (flatPairs kvs).reverse⟩ := by
+    unfold objText
+    simp only [List.cons_append, cutRun, h0, Option.bind_some]
+    have := cut_objBody kvs hne h .beginStringOrEmpty (Or.inr (Or.inr rfl)) []
+    simpa using this
+  have hrun := cutRun_state _ _ _ hcut
+  have hvalid : valid (objText kvs) = true := by
+    unfold valid
+    simp only at hrun
+    rw [hrun]; rfl
+  have hfb : firstByte (objText kvs) = 123 := by
+    unfold objText firstByte trimLeft
+    simp [List.dropWhile, isAsciiSpace]
+  unfold members pieces
+  simp [hfb, hvalid, hcut, pairUp_flatPairs]
 
 end Jrpc.Json
